@@ -71,6 +71,55 @@ def random_behaviours(rng: random.Random, n: int, depth: int):
     return out
 
 
+def replay_use(beh):
+    """Drive a real acceptor node (real DUL thread, real timers on the virtual clocks) along one
+    TimerUse behaviour; after every step compare the provider's answers with idleExp / artimExp."""
+    from rig import Rig
+
+    rig = Rig("acceptor", gate_idle=False)
+    ctl = rig.ctl
+    a = rig.assoc
+    out = []
+    try:
+        a.acse_timeout = 3
+        a.network_timeout = 4
+        rig.start_assoc_thread()
+        ctl.step("dul"); ctl.step("dul")          # Evt5 -> AE-5 -> Sta2, ARTIM started
+        def idle_iteration():
+            ctl.step("dul")
+            q18 = 18 in [int(e[3:]) for e in list(a.dul.event_queue.queue)]
+            return q18
+        for label, st in beh[1:]:
+            m = re.match(r"(\w+)(?:\((-?\d+)\))?", label)
+            act, v = m.group(1), int(m.group(2)) if m.group(2) else 0
+            q18 = False
+            if act == "Establish":
+                rig.feed("RQ")
+                ctl.step("dul"); ctl.step("dul")      # read RQ (idle restart), AE-6
+                ctl.step("assoc")                     # accept
+                ctl.step("dul"); ctl.step("dul")      # AE-7 -> Sta6
+            elif act == "Data":
+                rig.feed("PD_FRAG")
+                ctl.step("dul"); ctl.step("dul")
+            elif act == "Advance":
+                rig.clock.advance(v)
+                q18 = idle_iteration()
+            elif act == "WallJump":
+                rig.clock.jump_wall(v)
+                q18 = idle_iteration()
+            obs = {"a": act, "v": v, "idleExp": bool(a.dul.idle_timer_expired()),
+                   "artimExp": bool(a.dul.artim_timer.expired) if st["phase"] == "sta2" else False,
+                   "evt18": q18, "spec_idle": st["idleExp"], "spec_artim": st["artimExp"], "phase": st["phase"]}
+            out.append(obs)
+            if act in ("Advance", "WallJump"):
+                if st["artimExp"] or q18:
+                    break                              # the provider is now closing (AA-2)
+                ctl.step("dul")                        # finish the idle iteration (event half)
+        return out
+    finally:
+        rig.close()
+
+
 def run(ctx: Ctx) -> int:
     thorough = ctx.tier == "thorough"
     # MC: the elapsed-clock design satisfies the property ...
@@ -118,6 +167,32 @@ def run(ctx: Ctx) -> int:
             )
     ctx.sample(traces[0])
     ctx.sample(traces[-1])
+    # ---- the provider's use of its timers (TimerUse.tla) ------------------------------------------------
+    ru = must_ok(run_tlc("TimerUse", workdir=ctx.work, timeout=900))
+    ctx.add_tlc(ru)
+    if ru.violated:
+        ctx.violation({"where": "model", "invariant": ru.violated}, "TimerUse.tla violates " + ru.violated, ru.trace)
+    simu = os.path.join(ctx.work, "simu")
+    os.makedirs(simu)
+    nu = 600 if thorough else 80
+    must_ok(run_tlc("TimerUse", workdir=ctx.work, workers=1, simulate=f"file={simu}/tr,num={nu}", depth=16, seed=ctx.seed + 3))
+    for i, beh in enumerate(read_sim_traces(os.path.join(simu, "tr"))):
+        obs = replay_use(beh)
+        ctx.traces += 1
+        ctx.case(("use", tuple((o["a"], o["v"]) for o in obs)), nontrivial=any(o["a"] == "WallJump" for o in obs))
+        for k, o in enumerate(obs):
+            bad = None
+            if o["idleExp"] != o["spec_idle"]:
+                bad = ("dul._idle_timer", f"idle timer expired={o['idleExp']} but elapsed time says {o['spec_idle']}")
+            elif o["phase"] == "sta2" and (o["artimExp"] != o["spec_artim"] or (o["a"] in ("Advance", "WallJump") and o["evt18"] != o["spec_artim"])):
+                bad = ("dul.artim_timer", f"ARTIM expired={o['artimExp']} Evt18 queued={o['evt18']} but elapsed time says {o['spec_artim']}")
+            if bad:
+                jumps = any(x["a"] == "WallJump" for x in obs[:k + 1])
+                ctx.violation({"site": bad[0], "cause": "wall-clock" if jumps else "elapsed"},
+                              f"step {k + 1} {o['a']}({o['v']}): {bad[1]}; steps={[(x['a'], x['v']) for x in obs[:k + 1]]}", obs)
+                break
+        if i == 0:
+            ctx.sample({"timer_use_behaviour": obs})
     ctx.assume(
         "pynetdicom.timer reads its clock through the module attribute `time` (replaced by a two-clock virtual module)",
         "integer seconds; wall and elapsed clocks advance together except for explicit wall steps",
